@@ -375,6 +375,9 @@ pub assume_specification [<i64 as num::CheckedSub>::checked_sub] (a: &i64, b: &i
     ensures (r matches Some(v) ==> v == *a - *b), (r is None <==> !fits_i64(*a - *b));
 pub assume_specification [<i64 as num::CheckedMul>::checked_mul] (a: &i64, b: &i64) -> (r: Option<i64>)
     ensures (r matches Some(v) ==> v == *a * *b), (r is None <==> !fits_i64(*a * *b));
+/// (not used by the code today; declared so that a change introducing them stays decidable)
+pub assume_specification [i64::wrapping_div] (a: i64, b: i64) -> (r: i64)
+    requires b != 0 ensures r == (if a == i64::MIN && b == -1 { i64::MIN as int } else { tdiv(a as int, b as int) });
 pub assume_specification [i64::wrapping_neg] (a: i64) -> (r: i64) ensures r == (if a == i64::MIN { i64::MIN as int } else { -(a as int) });
 pub assume_specification [i64::wrapping_rem] (a: i64, b: i64) -> (r: i64)
     requires b != 0,
